@@ -14,7 +14,7 @@ ASSUMPTIONS = ['sec_param k=30: probabilistic zero test may err with probability
 
 
 def budget(tier):
-    return dict(shards=16, examples=40 if tier == 'quick' else 600)
+    return dict(shards=16, examples=100 if tier == 'quick' else 600)
 
 
 @st.composite
